@@ -10,6 +10,7 @@ bool file_exists(char *path) { struct stat st; return !stat(path, &st); }
 
 int main(int argc, char **argv) {
   int want = atoi(argv[1]);
+  int want_home = argc > 2 ? atoi(argv[2]) : -2;   // -1: last bucket of the real table
   init_macros();
   int cap = macros.capacity;
   int live = 0;
@@ -20,6 +21,7 @@ int main(int argc, char **argv) {
   for (int i = 0; i < 100000 && h < 0; i++) {
     char *n = format("VPM%d", i);
     int s = fnv_hash(n, strlen(n)) % cap;
+    if (want_home == -1 && s != cap - 1) continue;
     if (++cnt[s] == want) h = s;
   }
   printf("CAP %d LIVE %d HOME %d OCC %d\n", cap, live, h, macros.buckets[h].key != NULL);
